@@ -450,6 +450,7 @@ var (
 	targetMk  = flag.String("target", "", "run as sandbox target: marker file to create")
 	targetEv  = flag.String("events", "[]", "target mode: probe events (JSON)")
 	childVer  = flag.String("childverify", "", "run as verifier-probing child; the raw program (JSON) is read from stdin")
+	childParF = flag.String("childpar", "", "run as child of the concurrent-loads profile with this case (JSON)")
 )
 
 var lens = map[string]int{}
@@ -718,6 +719,15 @@ func main() {
 		childVerify(raw)
 		return
 	}
+	if *childParF != "" {
+		var c ParCase
+		if err := json.Unmarshal([]byte(*childParF), &c); err != nil {
+			fmt.Println("bad case")
+			os.Exit(2)
+		}
+		childPar(c)
+		return
+	}
 	if *childDec != "" {
 		var c DecideCase
 		if err := json.Unmarshal([]byte(*childDec), &c); err != nil {
@@ -747,6 +757,11 @@ func main() {
 	}
 	if *profile == "verifier" {
 		verifierStream(sum, model, *n, *seed)
+		finish(sum, start)
+		return
+	}
+	if *profile == "par" {
+		parStream(sum, *n, *seed)
 		finish(sum, start)
 		return
 	}
